@@ -122,7 +122,9 @@ def sha(b):
 def observe(res):
     """What the property talks about: the bytes of the GIR (or the failure to produce one)."""
     if res.error is not None or res.xml is None:
-        return b'ERROR: ' + (res.error or 'no output').encode()
+        # the text of a fatal message lists file positions in set order and goes to stderr: only the
+        # fact that no GIR was produced (and why, by exception class) is the observation
+        return b'ERROR: no GIR (' + (res.error or 'no output').split(':')[0].encode() + b')'
     return res.xml
 
 
@@ -235,8 +237,8 @@ def _work_audit(chunk):
         inp = I.by_name(name)
         choice.uninstall()
         plain = I.execute(inp)
-        if plain.error:
-            raise HarnessBroken('input %s does not scan cleanly: %s' % (name, plain.error))
+        if bool(plain.error) != bool(inp.get('expect_error')):
+            raise HarnessBroken('input %s: unexpected outcome of the plain scan: %s' % (name, plain.error or 'no error'))
         mods = pipeline_modules()
         choice.install(mods)
         try:
@@ -460,8 +462,8 @@ def _work_perm(chunk):
     inp = I.by_name(name)
     ref_res = I.execute(inp)
     ref = observe(ref_res)
-    if ref_res.error:
-        raise HarnessBroken('input %s: %s' % (name, ref_res.error))
+    if bool(ref_res.error) != bool(inp.get('expect_error')):
+        raise HarnessBroken('input %s: %s' % (name, ref_res.error or 'scan did not fail'))
     part.add(evaluations=1)
     ref_blank = blank_lines(ref)
     viol = []
@@ -479,7 +481,7 @@ def _work_perm(chunk):
             # executed, must not crash and must be reproducible; the bytes are not compared
             got = observe(I.execute(inp, decl_order=p))
             again = observe(I.execute(inp, decl_order=p))
-            bad = got.startswith(b'ERROR: ') or got != again
+            bad = got.startswith(b'ERROR: ') != bool(inp.get('expect_error')) or got != again
             a, b = got, again
             part.add(unspecified=1, evaluations=1)
             part.outcome('typedef-order-visible:%s' % (got != ref))
@@ -532,7 +534,7 @@ MODE_TEXT = {
     'decl-renum': 'apart from source-position line numbers the GIR changes when the declarations are written in another C-admissible order',
     'blocks': 'the GIR changes when the same comment blocks (distinct identifiers) are supplied in another order',
     'blockfiles': 'the GIR changes when the source files containing the comment blocks are supplied in another order',
-    'decl-unspec': 'the scanner fails or is not reproducible when typedefs naming the same tag arrive in another order',
+    'decl-unspec': 'the scanner fails (or stops failing) or is not reproducible when several definitions of one name / typedefs of one tag arrive in another order',
     'dump': 'the GIR changes when the runtime dump lists the same types / properties / signals / interfaces in another order',
 }
 
@@ -605,16 +607,18 @@ def declared_order_problems(inp, root):
 
 # ------------------------------------------------------------ P4: cache ---
 EDITABLE = ('Top-1.0', 'Aa-1.0')
-CACHE_INPUTS = ('deps', 'deps-tie')
+CACHE_INPUTS = ('deps', 'deps-tie', 'incpaths-ab', 'incpaths-ba')
+DEPA, DEPB = 'inc_a/Dep-1.0', 'inc_b/Dep-1.0'
 T0 = 1000000000
 T0_NS = T0 * 10 ** 9 + 100000000      # logical clock: T0 + 0.1 s + 0.25 s per tick
 TICK_NS = 250000000
 
 
 def cache_menu(tier):
-    ops = [('run', 0)]
+    ops = [('run', 0), ('run', 2), ('run', 3)]
     if tier == 'thorough':
         ops.append(('run', 1))
+    ops += [('touch', DEPA), ('touch', DEPB)]
     for f in EDITABLE:
         ops += [('edit', f), ('garbage', f), ('empty', f), ('text', f), ('badglobal', f), ('truncate', f), ('drop', f),
                 ('age', f)]
@@ -672,21 +676,64 @@ class CacheWorld(object):
         for n in ('GLib-2.0', 'GObject-2.0'):
             with open(os.path.join(scanrun.DEPS, n + '.gir')) as f:
                 I.write_atomic(self.path(n), f.read(), self.now())
-        self.all = list(I.GENERATED) + ['GLib-2.0', 'GObject-2.0']
+        # two include directories holding a same-named dependency GIR with different content
+        for d, rec in sorted(I.INCDIRS.items()):
+            os.makedirs(os.path.join(root, d))
+            I.write_atomic(self.path('%s/Dep-1.0' % d), I.incdep_text(rec), self.now())
+        self.all = list(I.GENERATED) + ['GLib-2.0', 'GObject-2.0', DEPA, DEPB]
         for n in self.all:
             self.model[n] = 'none'
         if os.stat(self.path('Top-1.0')).st_mtime_ns != T0_NS:
             raise HarnessBroken('the file system below %s does not keep sub-second mtimes' % root)
-        self.same_second = 0   # edits that land in the same whole second as the entry they invalidate
+        self.same_second = 0   # edits that land in the same whole second as the run that made the entry fresh
+        self.fresh_since = {}  # dep -> logical time of the run that (re)wrote its entry
+        self.entry_of = {}     # 'Name-Version' -> entry files observed to hold that namespace
 
     def now(self):
         return T0_NS + TICK_NS * self.tick
 
     def path(self, n):
+        if '/' in n:
+            return os.path.join(self.root, n + '.gir')
         return os.path.join(self.deps, n + '.gir')
 
+    def include_paths(self, inp):
+        return [os.path.join(self.root, d) for d in inp['opts'].get('include_dirs', [])] + [self.deps]
+
+    def visited(self, inp):
+        """Dependency files a scan of this input reads (for the model of entry states)."""
+        dirs = inp['opts'].get('include_dirs')
+        if dirs:
+            return ['%s/Dep-1.0' % dirs[0]]
+        return list(I.GENERATED) + ['GLib-2.0', 'GObject-2.0']
+
     def entry(self, n):
+        """The cache entry of dependency n: the file OBSERVED to hold that namespace after a run
+        (the harness does not assume how the implementation names its entries); if none has been
+        seen yet, the documented location sha1(absolute path)."""
+        for p in self.entry_of.get(n.split('/')[-1], []):
+            if os.path.exists(p):
+                return p
         return os.path.join(self.xdg, 'g-ir-scanner', hashlib.sha1(self.path(n).encode('utf-8')).hexdigest())
+
+    def observe_entries(self):
+        import pickle
+        d = os.path.join(self.xdg, 'g-ir-scanner')
+        if not os.path.isdir(d):
+            return
+        for fn in sorted(os.listdir(d)):
+            p = os.path.join(d, fn)
+            if fn.startswith('.') or not os.path.isfile(p):
+                continue
+            try:
+                with open(p, 'rb') as fh:
+                    ns = pickle.load(fh).get_namespace()
+                key = '%s-%s' % (ns.name, ns.version)
+            except Exception:
+                continue
+            lst = self.entry_of.setdefault(key, [])
+            if p not in lst:
+                lst.append(p)
 
     def settle(self):
         """Give everything written since the last tick the next logical time."""
@@ -697,6 +744,7 @@ class CacheWorld(object):
                 p = os.path.join(d, fn)
                 if os.stat(p).st_mtime > T0 * 1.5:
                     os.utime(p, ns=(self.now(), self.now()))
+        self.observe_entries()
 
     def apply(self, op):
         k = op[0]
@@ -707,13 +755,16 @@ class CacheWorld(object):
             I.write_atomic(self.path(f), I.dep_text(f, self.edition[f]), self.now())
             if self.model[f] == 'fresh':
                 self.model[f] = 'stale'
-                e = self.entry(f)
-                if os.path.exists(e):
-                    em = os.stat(e).st_mtime_ns
-                    if not em < self.now():
-                        raise HarnessBroken('logical clock: edit is not strictly later than the entry')
-                    if em // 10 ** 9 == self.now() // 10 ** 9:
-                        self.same_second += 1
+                # measured on the harness's own clock, not on the implementation's files
+                if self.fresh_since[f] // 10 ** 9 == self.now() // 10 ** 9:
+                    self.same_second += 1
+        elif k == 'touch':
+            # same content, newer mtime (decides which of the two Dep-1.0.gir is the younger one)
+            f = op[1]
+            self.tick += 1
+            os.utime(self.path(f), ns=(self.now(), self.now()))
+            if self.model[f] == 'fresh':
+                self.model[f] = 'stale'
         elif k in ('garbage', 'truncate', 'empty', 'text', 'badglobal'):
             f = op[1]
             e = self.entry(f)
@@ -799,13 +850,14 @@ def run_history(root, hist, expected, inputs, loads=None):
             states.append(w.state())
             if loads is not None:
                 loads.append(None)
-            res = I.execute(inp, use_cache=True, include_paths=[w.deps])
+            res = I.execute(inp, use_cache=True, include_paths=w.include_paths(inp))
             nruns += 1
             w.settle()
             got = observe(res)
             want = expected[(op[1], tuple(w.edition[f] for f in EDITABLE))]
-            for n in w.all:
+            for n in w.visited(inp):
                 w.model[n] = 'fresh'
+                w.fresh_since[n] = w.now()
             if got != want:
                 return ('run at step %d (cache state %s): %s' % (step, dict(zip(w.all, states[-1][1])),
                                                                  first_diff(want, got)), sha(want), sha(got)), states, nruns, w.same_second
@@ -824,8 +876,12 @@ def cache_expected(root, inputs):
             I.write_atomic(os.path.join(d, n + '.gir'), I.dep_text(n, v))
         for n in ('GLib-2.0', 'GObject-2.0'):
             shutil.copy(os.path.join(scanrun.DEPS, n + '.gir'), os.path.join(d, n + '.gir'))
+        for sub, rec in sorted(I.INCDIRS.items()):
+            os.makedirs(os.path.join(d, sub))
+            I.write_atomic(os.path.join(d, sub, 'Dep-1.0.gir'), I.incdep_text(rec))
         for i, inp in enumerate(inputs):
-            res = I.execute(inp, use_cache=False, include_paths=[d])
+            res = I.execute(inp, use_cache=False,
+                            include_paths=[os.path.join(d, x) for x in inp['opts'].get('include_dirs', [])] + [d])
             if res.error:
                 raise HarnessBroken('cache reference run failed: %s' % res.error)
             out[(i, ed)] = observe(res)
@@ -841,6 +897,7 @@ def _work_cache(chunk):
     expected = cache_expected(root, inputs)
     from giscanner import cachestore
     loads = []
+    cviol = []
     orig = cachestore.CacheStore.load
 
     def load(self, filename):
@@ -860,16 +917,15 @@ def _work_cache(chunk):
             part.add(cache_hits=sum(1 for x in loads if x and x[1]), cache_misses=sum(1 for x in loads if x and not x[1]))
             if problem:
                 text, want, got = problem
-                key = 'cache:%s' % json.dumps(hist)
-                part.violation(key, 'with the cache enabled the GIR differs from the cache-disabled GIR: ' + text,
-                               {'kind': 'cache', 'history': hist, 'expected_sha': want, 'observed_sha': got,
-                                'detail': text})
+                cviol.append((hist, text, want, got))
+                part.outcome('cache:DIFF')
         if hists:
             part.sample({'phase': 'cache', 'history': hists[len(hists) // 2]})
     finally:
         cachestore.CacheStore.load = orig
         shutil.rmtree(root, ignore_errors=True)
     r = part.result()
+    r['cache_violations'] = cviol
     r['cache_states'] = sorted(set(o for o in part.outcomes if isinstance(o, str) and o.startswith('cache-state:')))
     return r
 
@@ -1024,6 +1080,7 @@ def run(ctx):
     hists = cache_histories(ctx.tier, b['hist']) if want('cache') else []
     work += [('cache', (i, c)) for i, c in enumerate(chunked(hists, max(NCPU, 1) * 2))]
     pv = []
+    cv = []
     cache_states = set()
     for r in pmap(_work_any, rotate(work, ctx.seed)):
         kind = r.pop('kind')
@@ -1031,7 +1088,22 @@ def run(ctx):
             pv += r.pop('perm_violations')
         elif kind == 'cache':
             cache_states.update(r.pop('cache_states'))
+            cv += r.pop('cache_violations')
         ctx.merge(r)
+    # report only minimal failing histories: no shorter failing history is a subsequence of them
+    def subseq(a, b):
+        it = iter(b)
+        return all(any(x == y for y in it) for x in a)
+    cv.sort(key=lambda v: (len(v[0]), json.dumps(v[0])))
+    minimal = []
+    for hist, text, wsha, gsha in cv:
+        if not any(len(m[0]) < len(hist) and subseq(m[0], hist) for m in minimal):
+            minimal.append((hist, text, wsha, gsha))
+    for hist, text, wsha, gsha in minimal:
+        ctx.violation('cache:%s' % json.dumps(hist),
+                      'with the cache enabled the GIR differs from the cache-disabled GIR: ' + text,
+                      {'kind': 'cache', 'history': hist, 'expected_sha': wsha, 'observed_sha': gsha, 'detail': text})
+    ctx.add(cache_histories_failing=len(cv))
     order_dependent = set()
     for key in [v[0] for v in ctx.violations] + list(ctx.known_hits):
         if key.startswith('choice:'):
@@ -1059,6 +1131,8 @@ def run(ctx):
     # ---- P3 sibling order is one fixed function of kind and name; declaration order of members
     rel = {}
     for inp in (inputs if want('relation') else []):
+        if inp.get('expect_error'):
+            continue
         root = sibling_relation(refs[inp['name']], rel, inp['name'])
         problems, checked = declared_order_problems(inp, root)
         ctx.add(traces_validated_against_impl=1, declared_order_lists_checked=checked)
